@@ -31,7 +31,9 @@ impl serde::Serialize for Component {
     where
         S: serde::Serializer,
     {
-        ().serialize(serializer)
+        // The IO writer can't be serialized, but the pending whitespace of the token
+        // writer is part of the output that follows.
+        Some(&self.writer).serialize(serializer)
     }
 }
 
@@ -41,8 +43,12 @@ impl<'de> serde::Deserialize<'de> for Component {
     where
         D: serde::Deserializer<'de>,
     {
-        <()>::deserialize(deserializer)?;
-        Ok(Default::default())
+        // `None` is what VMs serialized before the writer was included contain.
+        let writer = Option::<token::Writer>::deserialize(deserializer)?;
+        Ok(Self {
+            writer: writer.unwrap_or_default(),
+            ..Default::default()
+        })
     }
 }
 
